@@ -164,14 +164,17 @@ def predicate(ctx, optic, case, gen, w):
             s = (EPL - P0[2]) / D[2]
             A = P0 + s * D
             ex, ey = px * EPD / 2, py * EPD / 2
+            # rounding of the direction cosines is magnified by the distance to the pupil plane (nearly
+            # telecentric lenses have their entrance pupil kilometres away)
+            far = 1e-13 * abs(s)
             if vx == 0 and vy == 0:
-                if abs(A[0] - ex) > 1e-8 * max(1, abs(EPD)) or abs(A[1] - ey) > 1e-8 * max(1, abs(EPD)):
+                if abs(A[0] - ex) > 1e-8 * max(1, abs(EPD)) + far or abs(A[1] - ey) > 1e-8 * max(1, abs(EPD)) + far:
                     ctx.fail('ray is aimed at (Px,Py) x EPD/2 on the entrance pupil plane', case,
                              A.tolist(), [ex, ey, EPL])
                     return
             else:
-                if abs(A[0]) > abs(ex) * (1 + 1e-9) + 1e-9 or abs(A[1]) > abs(ey) * (1 + 1e-9) + 1e-9 or \
-                        A[0] * ex < -1e-12 or A[1] * ey < -1e-12:
+                if abs(A[0]) > abs(ex) * (1 + 1e-9) + 1e-9 + far or abs(A[1]) > abs(ey) * (1 + 1e-9) + 1e-9 + far or \
+                        A[0] * ex < -1e-12 - far * abs(ex) or A[1] * ey < -1e-12 - far * abs(ey):
                     ctx.fail('vignetting factors can only shrink the sampled pupil', case, A.tolist(), [ex, ey])
                     return
         # start point / field angle
